@@ -243,6 +243,20 @@ func runH2(casesPath, tracePath string, from, nrand int) {
 		var stream []byte
 		ev := vh.Ev{"case": idx, "n": c.N}
 		var call func([]byte, string) h2run
+		if c.Kind == "slist" {
+			var sc slistCase
+			if err := json.Unmarshal(raw, &sc); err != nil {
+				return err
+			}
+			r := slistOnce(&sc)
+			ncalls++
+			tr.Emit(vh.Ev{"ev": "slist", "case": idx, "target": sc.Target, "items": sc.Items, "handled": r.Handled, "write": r.Write,
+				"data": r.Data, "body": slistBody})
+			if r.Handled == "loop" || r.Write == "loop" {
+				looped = true
+			}
+			return nil
+		}
 		if c.Kind == "hpint" || c.Kind == "fval" {
 			var hc hpintCase
 			if err := json.Unmarshal(raw, &hc); err != nil {
